@@ -32,6 +32,23 @@ func (p *pipeStream) Close() error                { return p.c.Close() }
 
 // TestVerifC06b: the contact announced after the handshake must be the authenticated account; only then is an
 // incoming-request event appended.
+// coalesceConn delivers what its user writes back to back as ONE segment: writes are held until the user reads
+// (it waits for the peer) or closes - the way a stream multiplexer or the network coalesces small writes.
+type coalesceConn struct {
+	net.Conn
+	buf []byte
+}
+
+func (c *coalesceConn) flush() {
+	if len(c.buf) > 0 {
+		_, _ = c.Conn.Write(c.buf)
+		c.buf = nil
+	}
+}
+func (c *coalesceConn) Write(b []byte) (int, error) { c.buf = append(c.buf, b...); return len(b), nil }
+func (c *coalesceConn) Read(b []byte) (int, error)  { c.flush(); return c.Conn.Read(b) }
+func (c *coalesceConn) Close() error                { c.flush(); return c.Conn.Close() }
+
 func TestVerifC06b(t *testing.T) {
 	rep := vrep.New("C06")
 	defer func() {
@@ -75,14 +92,24 @@ func TestVerifC06b(t *testing.T) {
 		{"announces-garbage", "M", func(self, v []byte) *protocoltypes.ShareableContact { return nil }, ""},
 	}
 	victimPK, _ := vDetKey(seed, "acct/A").GetPublic().Raw()
+	ncases := len(cases)
+	cases = append(cases, cases...) // second half: the requester's last handshake frame and its contact arrive as one segment
 	for ci, pc := range cases {
+		coalesce := ci >= ncases
+		if coalesce {
+			pc.name += "/one-segment"
+		}
 		// responder: a fresh device of account B with its account group (no activation needed)
 		dB := w.newDevice("B", fmt.Sprintf("r%d", ci))
 		gc := dB.open(dB.accountGroup())
 		bSK, err := dB.ss.GetAccountPrivateKey()
 		vmust(err)
 		mgr := &contactRequestsManager{logger: zap.NewNop(), accountPrivateKey: bSK, metadataStore: gc.MetadataStore(), lookupProcess: map[string]context.CancelFunc{}}
-		c1, c2 := net.Pipe()
+		c1, c2raw := net.Pipe()
+		var c2 net.Conn = c2raw
+		if coalesce {
+			c2 = &coalesceConn{Conn: c2raw}
+		}
 		reqSK := vDetKey(seed, "acct/"+pc.requester)
 		selfPK, _ := reqSK.GetPublic().Raw()
 		done := make(chan error, 1)
